@@ -234,6 +234,11 @@ func worldC02(w *World) {
 			return true
 		}
 	}
+	if bfault && t.Rare(1, 2, "refusedial") {
+		// the backend is restarting: one of the next new connections to it is refused
+		w.K.Faults = append(w.K.Faults, &sim.NetFault{ToAddr: "agenthost:8080", ConnOrd: 1 + t.Choice(3, "refuseord"), Kind: sim.FaultRefuse})
+		w.Probe("backend_dial_refused_once")
+	}
 	startRawBackend(w, rb)
 	startAgent(w)
 	warm := make(chan struct{})
@@ -325,7 +330,10 @@ func worldC02(w *World) {
 				parts := strings.SplitN(r.StartLine, " ", 3)
 				if len(parts) == 3 && strings.Contains(parts[1], marker) {
 					if bfault && r.Err != "" {
-						continue // a delivery cut short by the injected close
+						// the head of the request arrived with a body that ends early although
+						// the client sent the complete request
+						w.Violation("body", "backend received a request whose body ended early although the client had sent it completely | %s %q: %s", g.Method, g.Target, r.Err)
+						continue
 					}
 					if bfault && got != nil && !bytes.Equal(got.Body, g.Body) {
 						continue // keep the first differing delivery for the report
